@@ -92,6 +92,11 @@ class FuncVC:
                 if not isinstance(cond, (bool, SB)):
                     cond = truth(cond)
                 status, backend, dt, model = discharge(pre, facts, st.pc if pc is None else pc, cond, defs)
+                if status == 'unknown':
+                    # one more attempt with 4x the budgets (verdicts must not flip because the machine is busy)
+                    from pyvc import solve
+                    status, backend, dt2, model = discharge(pre, facts, st.pc if pc is None else pc, cond, defs, 4 * solve.Z3_TIMEOUT_MS)
+                    dt += dt2
                 oid = '%s/%s/%s@%s' % (self.prop, self.name, kind, tag)
                 rep.add(oid, status, backend, dt, self.name)
                 if backend.startswith(('z3', 'cvc5')) and status == 'proved':
